@@ -54,20 +54,38 @@ def _replay_chunk(args):
     return out, sorted(devs), nontrivial
 
 
-def graph_replay(name, progs, plans, alphabet, k, extra_defs='', procs=None, fixes=FIXES, overrides=(), base='ProcessProps',
-                 spec='Spec', run_kw=None):
-    """Dump the full state graph of the instance and replay every maximal path. -> dict"""
+def graph_dump(name, progs, plans, alphabet, k, extra_defs='', procs=None, fixes=FIXES, overrides=(), base='ProcessProps',
+               spec='Spec', run_kw=None, workers=None):
+    """Phase 1 of graph_replay (TLC only; may run concurrently with other TLC runs): dump the full state graph. -> dict"""
     plans = [list(p) for p in plans]
     tla, cfg = core_model.mc_module('MC_' + name, progs, plans, fixes, alphabet, k, base=base, extra_defs=extra_defs,
                                     overrides=overrides, spec=spec)
     t0 = time.time()
-    with tlc.Workdir() as wd:
+    wd = tlc.Workdir()
+    wd.__enter__()
+    try:
         wd.write('MC_%s.tla' % name, tla)
         wd.write('MC_%s.cfg' % name, cfg)
         dot = os.path.join(wd.path, 'graph')
-        res = tlc.run(wd, 'MC_%s.tla' % name, 'MC_%s.cfg' % name, args=['-dump', 'dot,actionlabels', dot])
-        t1 = time.time()
-        nodes, edges, inits = tlc.load_dot(dot + '.dot')
+        res = tlc.run(wd, 'MC_%s.tla' % name, 'MC_%s.cfg' % name, args=['-dump', 'dot,actionlabels', dot], workers=workers)
+    except BaseException:
+        wd.__exit__(None, None, None)
+        raise
+    return {'wd': wd, 'dot': dot + '.dot', 'res': res, 'tlc_s': time.time() - t0, 'plans': plans}
+
+
+def graph_replay(name, progs, plans, alphabet, k, extra_defs='', procs=None, fixes=FIXES, overrides=(), base='ProcessProps',
+                 spec='Spec', run_kw=None, dump=None):
+    """Dump the full state graph of the instance and replay every maximal path. -> dict"""
+    if dump is None:
+        dump = graph_dump(name, progs, plans, alphabet, k, extra_defs=extra_defs, fixes=fixes, overrides=overrides, base=base, spec=spec)
+    plans, res = dump['plans'], dump['res']
+    t1 = time.time()
+    try:
+        nodes, edges, inits = tlc.load_dot(dump['dot'])
+    finally:
+        dump['wd'].__exit__(None, None, None)
+    t0 = t1 - dump['tlc_s']
     t2 = time.time()
     jobs = []
     total = 0
@@ -99,7 +117,7 @@ def graph_replay(name, progs, plans, alphabet, k, extra_defs='', procs=None, fix
 
 
 def model_check(name, progs, plans, alphabet, k, invariants=(), properties=(), extra_defs='', view=False, fixes=FIXES,
-                timeout=3000, overrides=(), base='ProcessProps', spec='Spec'):
+                timeout=3000, overrides=(), base='ProcessProps', spec='Spec', workers=None):
     cfgx = ''.join('INVARIANT %s\n' % i for i in invariants) + ''.join('PROPERTY %s\n' % i for i in properties)
     if view:
         cfgx += 'VIEW View\n'
@@ -108,7 +126,7 @@ def model_check(name, progs, plans, alphabet, k, invariants=(), properties=(), e
     with tlc.Workdir() as wd:
         wd.write('MC_%s.tla' % name, tla)
         wd.write('MC_%s.cfg' % name, cfg)
-        res = tlc.run(wd, 'MC_%s.tla' % name, 'MC_%s.cfg' % name, timeout=timeout)
+        res = tlc.run(wd, 'MC_%s.tla' % name, 'MC_%s.cfg' % name, timeout=timeout, workers=workers)
     return res
 
 
@@ -132,8 +150,30 @@ def run_check(pid, tier, seed, mc_runs, replay_runs, level_text, assumptions, ru
     violations = 0
     states = transitions = 0
     mc_summ = []
-    for m in mc_runs:
-        res = model_check(**m)
+    # The TLC invocations of a check (model checking, graph dumps, the test-suite trace stage) are independent: in the quick
+    # tier, where start-up dominates, they run concurrently; parsing and replaying (fork pools) follow in the main thread.
+    par = int(os.environ.get('VERIF_TLC_PAR', '4' if tier == 'quick' else '1'))
+    from concurrent.futures import ThreadPoolExecutor
+    pool = ThreadPoolExecutor(max_workers=max(par, 1))
+    wk = None if par <= 1 else max(2, (os.cpu_count() or 4) // par)
+    mc_f = [pool.submit(model_check, workers=wk, **m) for m in mc_runs]
+    dump_f = [pool.submit(graph_dump, workers=wk, **r) for r in replay_runs] if par > 1 else None
+    suite_f = None
+    if suite_traces is not None and par > 1:
+        from . import obs_trace
+        suite_f = pool.submit(obs_trace.run_stage, suite_traces)
+    def abandon():           # a machinery failure: leave no scratch directory behind
+        for f in dump_f or []:
+            try:
+                f.result()['wd'].cleanup()
+            except BaseException:  # noqa
+                pass
+    for m, f in zip(mc_runs, mc_f):
+        try:
+            res = f.result()
+        except BaseException:
+            abandon()
+            raise
         states += res.distinct
         transitions += res.generated
         mc_summ.append({'instance': m['name'], 'distinct_states': res.distinct, 'states_generated': res.generated,
@@ -148,14 +188,27 @@ def run_check(pid, tier, seed, mc_runs, replay_runs, level_text, assumptions, ru
             print('VIOLATION property=%s replay=%s' % (pid, path))
             violations += 1
         elif not res.ok:
+            abandon()
             raise tlc.MachineryError('TLC did not complete on %s:\n%s' % (m['name'], res.out[-3000:]))
     replayed = 0
     nontrivial = 0
     devs = set()
     samples = []
     rp_summ = []
-    for r in replay_runs:
-        g = graph_replay(**r)
+    dumps = [None] * len(replay_runs)
+    if dump_f is not None:
+        import concurrent.futures as cf
+        cf.wait(dump_f + ([suite_f] if suite_f is not None else []))       # (no thread is left running when the replay pools fork)
+        err = [f.exception() for f in dump_f if f.exception() is not None]
+        if err:
+            for f in dump_f:
+                if f.exception() is None:
+                    f.result()['wd'].cleanup()
+            raise err[0]
+        dumps = [f.result() for f in dump_f]
+    pool.shutdown(wait=True)
+    for r, dmp in zip(replay_runs, dumps):
+        g = graph_replay(dump=dmp, **r)
         replayed += g['paths']
         nontrivial += g['nontrivial']
         devs |= g['devs']
@@ -175,7 +228,7 @@ def run_check(pid, tier, seed, mc_runs, replay_runs, level_text, assumptions, ru
     if suite_traces is not None:
         # direction V: the repository's own test-suite under the recorder, validated by TLC against ObservableTrace.tla
         from . import obs_trace
-        suite = obs_trace.run_stage(suite_traces)
+        suite = suite_f.result() if suite_f is not None else obs_trace.run_stage(suite_traces)
         for v in suite['violations'][:5]:
             path = write_replay(pid, 'suitetrace', {'kind': 'rejected-test-suite-trace', 'process_class': v['cls'], 'first_unexplained_event': v['at'],
                                                    'event': v['event'], 'events': v['events']})
